@@ -9,7 +9,7 @@
    succeeds) are derived from the decoder's own bound tests. *)
 From Coq Require Import ZArith List Lia Bool ZifyBool.
 From LZ4V Require Import Gen.Consts Spec.BlockSpec Model.Mem Model.Dec.
-From LZ4V Require Import Proofs.DecRefineBase Proofs.DecRefineSafe.
+From LZ4V Require Import Proofs.DecRefineBase Proofs.DecRefineSafe Proofs.DecConverseErr.
 Import ListNotations.
 Local Open Scope Z_scope.
 
@@ -478,41 +478,105 @@ Section Rev.
         apply (HL (ip s + 1) _ (tok / 16) r Hrl); try assumption; lia.
   Qed.
 
-  (* ---------- the position reported with an error never precedes the current one ---------- *)
-  Lemma rvl_loop_ip : forall fuel p len kf ilimit, 0 <= len ->
-    let '(o, p', _) := rvl_loop srcm iend fuel p len kf ilimit in
-    p <= p' /\ match o with Some l => 0 <= l | None => True end.
-  Proof.
-    induction fuel as [|f IH]; intros p len kf ilimit Hlen; cbn [rvl_loop]; [split; [lia | exact I]|]. cbv zeta.
-    pose proof (Hsrc p) as Hb.
-    destruct (p + 1 >? ilimit); [split; [lia | exact I]|].
-    destruct (get srcm p =? 255); [|split; lia].
-    specialize (IH (p + 1) (len + get srcm p) (kf && rd_src iend p 1) ilimit ltac:(lia)).
-    destruct (rvl_loop srcm iend f (p + 1) (len + get srcm p) (kf && rd_src iend p 1) ilimit) as [[l p'] k'].
-    destruct IH as [H1 H2]. split; [lia | exact H2].
-  Qed.
-
-  Lemma rvl_ip p ilimit ic kf :
-    let '(o, p', _) := rvl srcm iend p ilimit ic kf in
-    p <= p' /\ match o with Some l => 0 <= l | None => True end.
-  Proof.
-    unfold rvl. destruct (ic && (p >=? ilimit)); [split; [lia | exact I]|]. apply rvl_loop_ip. lia.
-  Qed.
-
-  Lemma safe_top_err_ip s :
+  Lemma safe_top_at_iend s :
+    ip s = iend -> 0 <= ip s ->
     match safe_top false dict srcm iend oend lowPrefix rlow dictm dictSize s with
-    | Err s' => ip s <= ip s' | _ => True end.
+    | Err s' => True | _ => False end.
   Proof.
+    intros Hi Hip.
     pose proof (Hsrc (ip s)) as Htok.
-    assert (Hn : 0 <= get srcm (ip s) / 16) by (apply Z.div_pos; lia).
-    unfold safe_top, safe_lit, copy_match_lbl, safe_match, ext_match. cbv zeta. cbn [ip op dm ok andb negb orb].
-    repeat match goal with
-    | |- context [rvl srcm iend ?p ?il ?ic ?k] =>
-        let H := fresh "Hr" in pose proof (rvl_ip p il ic k) as H;
-        destruct (rvl srcm iend p il ic k) as [[[?|] ?] ?]; destruct H
-    | |- context [first8 ?m ?d ?ss ?o] => destruct (first8 m d ss o)
-    | |- context [if ?c then _ else _] => destruct c
-    end; cbn [ip]; try exact I; lia.
+    destruct (nibbles _ Htok) as [Hn _].
+    unfold safe_top. cbv zeta.
+    assert (Esc : negb (get srcm (ip s) / 16 =? RUN_MASK) && ((ip s + 1 <? shortiend iend) && (op s <=? shortoend oend)) = false) by fin.
+    rewrite Esc. cbv beta iota.
+    destruct (get srcm (ip s) / 16 =? RUN_MASK) eqn:E15; cbv beta iota.
+    - unfold rvl. assert (E : true && (ip s + 1 >=? iend - RUN_MASK) = true) by fin. rewrite E. exact I.
+    - unfold safe_lit. cbv zeta. cbn [ip op dm negb andb orb].
+      assert (E1 : (op s + get srcm (ip s) / 16 >? oend - MFLIMIT) || (ip s + 1 + get srcm (ip s) / 16 >? iend - (2 + 1 + LASTLITERALS)) = true) by fin.
+      rewrite E1. cbv beta iota.
+      assert (E2 : negb (ip s + 1 + get srcm (ip s) / 16 =? iend) || (op s + get srcm (ip s) / 16 >? oend) = true) by lia.
+      rewrite E2. exact I.
+  Qed.
+
+  (* ---------- the safe loop on arbitrary input ---------- *)
+  Lemma run_rev : forall fuel s (bs rout : list Z) f,
+    src_at srcm (ip s) bs -> bytes bs -> ip s + Z.of_nat (length bs) = iend -> 0 <= ip s ->
+    0 <= op s -> out_at (vget (dm s)) (op s) rout -> avail (op s) rout -> (length bs < f)%nat ->
+    let '(r, s') := run false dict srcm iend oend lowPrefix rlow dictm dictSize fuel false s in
+    0 <= r ->
+    zero_off f bs = true \/
+    exists ss (last rout' : list Z),
+      parse_seqs f bs = Some (ss, last) /\ apply_seqs rout ss = Some rout' /\
+      r = op s + total_len ss last /\ r <= oend /\ out_at (vget (dm s')) r (rev last ++ rout').
+  Proof.
+    induction fuel as [|fuel IH]; intros s bs rout f Hs Hb Hie Hip Hop O Hav Hf.
+    { cbn [run]. intros H. lia. }
+    cbn [run].
+    destruct (Z_lt_ge_dec (ip s) iend) as [Hlt|Hge].
+    2:{ pose proof (safe_top_at_iend s ltac:(lia) Hip) as HE.
+        destruct (safe_top false dict srcm iend oend lowPrefix rlow dictm dictSize s) as [f' s'|s'|s'] eqn:E; try contradiction.
+        pose proof (safe_top_err_ip dict srcm iend oend lowPrefix rlow dictm dictSize Hsrc s) as HI. rewrite E in HI. intros H. lia. }
+    pose proof (safe_top_cases s bs rout Hs Hb Hie ltac:(lia) Hop O Hav) as HC.
+    pose proof (safe_top_err_ip dict srcm iend oend lowPrefix rlow dictm dictSize Hsrc s) as HI.
+    destruct f as [|f]; [lia|].
+    destruct (safe_top false dict srcm iend oend lowPrefix rlow dictm dictSize s) as [f' s'|s'|s']; cbn [top_post] in HC.
+    - (* a complete sequence *)
+      destruct HC as (Hf' & tok & r & ll & r1 & lits & o1 & o2 & r3 & ml & r4 & Hbs & Hrl1 & Htk & Hrl2 & Hi' & Hlen4 & Hseq).
+      subst f' bs.
+      destruct (bytes_cons _ _ Hb) as [Htok Hbr].
+      destruct (src_at_cons _ _ _ _ Hs) as [_ Hsr].
+      destruct (nibbles tok Htok) as [Hn1 Hn2].
+      destruct (read_len_suffix srcm iend _ _ _ _ _ Hn1 Hrl1 Hbr Hsr) as (Hl1 & Hll & _ & Hs1 & Hb1).
+      destruct (take_spec _ _ _ _ Htk) as [Er1 Hlits]. unfold byte in *.
+      set (p1 := ip s + 1 + (Z.of_nat (length r) - Z.of_nat (length r1))) in *.
+      rewrite Er1 in Hs1, Hb1.
+      destruct (src_at_app _ _ _ _ Hs1) as [_ Hs2]. destruct (bytes_app _ _ Hb1) as [_ Hb2].
+      destruct (src_at_cons _ _ _ _ Hs2) as [_ Hs3]. destruct (src_at_cons _ _ _ _ Hs3) as [_ Hs4].
+      destruct (bytes_cons _ _ Hb2) as [Ho1 Hb3]. destruct (bytes_cons _ _ Hb3) as [Ho2 Hb4].
+      destruct (read_len_suffix srcm iend _ _ _ _ _ Hn2 Hrl2 Hb4 Hs4) as (Hl2 & Hml & _ & Hs5 & Hb5). unfold byte in *.
+      assert (Hlr1 : length r1 = (length lits + S (S (length r3)))%nat) by (rewrite Er1, app_length; reflexivity).
+      cbn [length] in Hie, Hlen4, Hf.
+      assert (Ell : ll = Z.of_nat (length lits)) by lia.
+      (* the specification's view of this step *)
+      assert (Hz : zero_off (S f) (tok :: r) = (o1 + 256 * o2 =? 0) || zero_off f r4).
+      { cbn [zero_off]. unfold byte in *. rewrite Hrl1, Htk, Hrl2. reflexivity. }
+      assert (Hp : parse_seqs (S f) (tok :: r) =
+                   match parse_seqs f r4 with
+                   | Some (ss, last) => Some (mkSeq lits (o1 + 256 * o2) (ml + 4) :: ss, last)
+                   | None => None end).
+      { rewrite parse_seqs_S. unfold byte in *. rewrite Hrl1, Htk, Hrl2. reflexivity. }
+      destruct Hseq as [Hz0|(Ho' & Hoe' & rout1 & Happ & O')].
+      { destruct (run false dict srcm iend oend lowPrefix rlow dictm dictSize fuel false s') as [rr s'']. intros _. left. rewrite Hz. rewrite Hz0. reflexivity. }
+      assert (Hlen1 : length rout1 = (length rout + length lits + Z.to_nat (ml + 4))%nat).
+      { unfold apply_seq in Happ. cbn [s_lits s_off s_mlen] in Happ.
+        destruct (off_ok (o1 + 256 * o2) && (4 <=? ml + 4)); [|discriminate].
+        apply copy_match_length in Happ. rewrite app_length, rev_length in Happ. unfold byte in *. lia. }
+      assert (Hs' : src_at srcm (ip s') r4).
+      { replace (ip s') with (p1 + Z.of_nat (length lits) + 1 + 1 + (Z.of_nat (length r3) - Z.of_nat (length r4))) by (unfold p1; lia).
+        exact Hs5. }
+      assert (Hav' : avail (op s') rout1) by (unfold avail in *; unfold byte in *; lia).
+      specialize (IH s' r4 rout1 f Hs' Hb5 ltac:(lia) ltac:(lia) ltac:(lia) O' Hav' ltac:(lia)).
+      destruct (run false dict srcm iend oend lowPrefix rlow dictm dictSize fuel false s') as [rr s''].
+      intros Hr.
+      destruct (IH Hr) as [Hzr|(ss & last & rout' & Hps & Hap & Hrr & Hro & Hout)].
+      + left. rewrite Hz, Hzr. apply orb_true_r.
+      + right. exists (mkSeq lits (o1 + 256 * o2) (ml + 4) :: ss), last, rout'.
+        split; [rewrite Hp, Hps; reflexivity|]. split.
+        * cbn [apply_seqs]. rewrite Happ. exact Hap.
+        * cbn [total_len fold_right s_lits s_mlen]. fold (total_len ss last). unfold byte in *.
+          split; [lia|]. split; [exact Hro | exact Hout].
+    - (* the final literal run *)
+      destruct HC as (tok & r & ll & r1 & lits & Hbs & Hrl1 & Htk & Ho' & Hoe' & O').
+      subst bs. intros _. right. exists [], lits, rout.
+      destruct (bytes_cons _ _ Hb) as [Htok Hbr].
+      destruct (src_at_cons _ _ _ _ Hs) as [_ Hsr].
+      destruct (nibbles tok Htok) as [Hn1 _].
+      destruct (read_len_suffix srcm iend _ _ _ _ _ Hn1 Hrl1 Hbr Hsr) as (_ & Hll & _).
+      destruct (take_spec _ _ _ _ Htk) as [_ Hlits]. unfold byte in *.
+      split; [rewrite parse_seqs_S; unfold byte in *; rewrite Hrl1, Htk; reflexivity|].
+      split; [reflexivity|]. cbn [total_len fold_right]. unfold byte in *.
+      split; [lia|]. split; [lia|]. replace (op s + Z.of_nat (length lits)) with (op s') by lia. exact O'.
+    - intros H. lia.
   Qed.
 
 End Rev.
